@@ -90,7 +90,7 @@ theorem queueRemainder_sched (c : Conn) (data : Bytes) (n : Nat) (fault : Bool) 
     (queueRemainder c data n fault).pending = c.pending
       ++ (if fault = false ∧ 0 < data.length - n ∧ c.hasHWM = true ∧ c.outBuf.length < c.mark
             ∧ c.mark ≤ c.outBuf.length + (data.length - n)
-          then [Task.highWater (c.outBuf.length + (data.length - n))] else [])
+          then [Task.highWater (bindCb hwmBind c.hwmId) (c.outBuf.length + (data.length - n))] else [])
     ∧ (queueRemainder c data n fault).outBuf
         = (if fault = false ∧ 0 < data.length - n then c.outBuf ++ data.drop n else c.outBuf) := by
   unfold queueRemainder
@@ -124,8 +124,8 @@ theorem queueRemainder_sched (c : Conn) (data : Bytes) (n : Nat) (fault : Bool) 
 
 
 /-- the high-water functor queued when a backlog of `old` bytes grows by `rem` bytes -/
-def hwmSched (has : Bool) (old mark rem : Nat) : List Task :=
-  if 0 < rem ∧ has = true ∧ old < mark ∧ mark ≤ old + rem then [Task.highWater (old + rem)] else []
+def hwmSched (has : Bool) (cb : Bound) (old mark rem : Nat) : List Task :=
+  if 0 < rem ∧ has = true ∧ old < mark ∧ mark ≤ old + rem then [Task.highWater cb (old + rem)] else []
 
 /-- bytes that `queueRemainder` appends to the backlog -/
 def remOf (data : Bytes) (n : Nat) (fault : Bool) : Nat := if fault then 0 else data.length - n
@@ -133,7 +133,7 @@ def remOf (data : Bytes) (n : Nat) (fault : Bool) : Nat := if fault then 0 else 
 theorem queueRemainder_aux (c : Conn) (data : Bytes) (n : Nat) (fault : Bool) :
     (queueRemainder c data n fault).outBuf.length = c.outBuf.length + remOf data n fault ∧
     (queueRemainder c data n fault).pending
-      = c.pending ++ hwmSched c.hasHWM c.outBuf.length c.mark (remOf data n fault) := by
+      = c.pending ++ hwmSched c.hasHWM (bindCb hwmBind c.hwmId) c.outBuf.length c.mark (remOf data n fault) := by
   obtain ⟨h1, h2⟩ := queueRemainder_sched c data n fault
   rw [h1, h2]
   cases fault with
@@ -146,15 +146,16 @@ theorem queueRemainder_aux (c : Conn) (data : Bytes) (n : Nat) (fault : Bool) :
 
 theorem accept_popWrite_fields (c : Conn) (data : Bytes) (q : Bool) (e : Ev) :
     let c0 := emit (popWrite (accept c data q)) e
-    c0.outBuf = c.outBuf ∧ c0.pending = c.pending ∧ c0.hasWC = c.hasWC ∧ c0.hasHWM = c.hasHWM ∧ c0.mark = c.mark := by
-  simp only [emit]; unfold popWrite accept; split <;> exact ⟨rfl, rfl, rfl, rfl, rfl⟩
+    c0.outBuf = c.outBuf ∧ c0.pending = c.pending ∧ c0.hasWC = c.hasWC ∧ c0.hasHWM = c.hasHWM ∧ c0.mark = c.mark
+      ∧ c0.wcId = c.wcId ∧ c0.hwmId = c.hwmId := by
+  simp only [emit]; unfold popWrite accept; split <;> exact ⟨rfl, rfl, rfl, rfl, rfl, rfl, rfl⟩
 
 theorem sendInLoop_sched_aux (c : Conn) (data : Bytes) (q : Bool) :
     ∃ rem, (sendInLoop c data q).outBuf.length = c.outBuf.length + rem ∧
       (sendInLoop c data q).pending = c.pending
         ++ (if c.hasWC = true ∧ c.st ≠ .kDisconnected ∧ c.ch.evWrite = false ∧ c.outBuf = []
-              ∧ tookWhole (peekWrite c) data.length = true then [Task.writeComplete] else [])
-        ++ hwmSched c.hasHWM c.outBuf.length c.mark rem := by
+              ∧ tookWhole (peekWrite c) data.length = true then [Task.writeComplete (bindCb wcBindSend c.wcId)] else [])
+        ++ hwmSched c.hasHWM (bindCb hwmBind c.hwmId) c.outBuf.length c.mark rem := by
   unfold sendInLoop
   by_cases hg : sendGivesUp c.st
   · rw [if_pos hg]
@@ -166,8 +167,8 @@ theorem sendInLoop_sched_aux (c : Conn) (data : Bytes) (q : Bool) :
     · rw [if_pos hd]
       obtain ⟨hw, hl⟩ := (directWrite_iff _ _).mp hd
       have ho : c.outBuf = [] := List.eq_nil_of_length_eq_zero hl
-      obtain ⟨f1, f2, f3, f4, f5⟩ := accept_popWrite_fields c data q (.sysWrite data.length (peekWrite c))
-      generalize emit (popWrite (accept c data q)) (.sysWrite data.length (peekWrite c)) = c0 at f1 f2 f3 f4 f5 ⊢
+      obtain ⟨f1, f2, f3, f4, f5, f6, f7⟩ := accept_popWrite_fields c data q (.sysWrite data.length (peekWrite c))
+      generalize emit (popWrite (accept c data q)) (.sysWrite data.length (peekWrite c)) = c0 at f1 f2 f3 f4 f5 f6 f7 ⊢
       cases hr : peekWrite c with
       | took n =>
         simp only [sendDirect]
@@ -175,10 +176,10 @@ theorem sendInLoop_sched_aux (c : Conn) (data : Bytes) (q : Bool) :
         · rw [if_pos hs]
           obtain ⟨s1, s2⟩ := (sendWholeWC_iff _ _).mp hs
           have s2' : c.hasWC = true := by rw [← f3]; exact s2
-          obtain ⟨a1, a2⟩ := queueRemainder_aux (enqueue { c0 with wrote := c0.wrote ++ data.take n } .writeComplete) data n false
+          obtain ⟨a1, a2⟩ := queueRemainder_aux (enqueue { c0 with wrote := c0.wrote ++ data.take n } (.writeComplete (bindCb wcBindSend c0.wcId))) data n false
           refine ⟨remOf data n false, ?_, ?_⟩
           · rw [a1]; simp only [enqueue]; rw [f1]
-          · rw [a2]; simp only [enqueue]; rw [f1, f2, f4, f5]
+          · rw [a2]; simp only [enqueue]; rw [f1, f2, f4, f5, f6, f7]
             have : tookWhole (WriteRes.took n) data.length = true := by
               simp only [tookWhole, decide_eq_true_eq]
               have s1' : data.length - n = 0 := s1
@@ -190,7 +191,7 @@ theorem sendInLoop_sched_aux (c : Conn) (data : Bytes) (q : Bool) :
           obtain ⟨a1, a2⟩ := queueRemainder_aux ({ c0 with wrote := c0.wrote ++ data.take n } : Conn) data n false
           refine ⟨remOf data n false, ?_, ?_⟩
           · rw [a1]; simp only []; rw [f1]
-          · rw [a2]; simp only []; rw [f1, f2, f4, f5]
+          · rw [a2]; simp only []; rw [f1, f2, f4, f5, f7]
             have : ¬ (c.hasWC = true ∧ tookWhole (WriteRes.took n) data.length = true) := by
               simp only [tookWhole, decide_eq_true_eq]
               intro h; exact hs' ⟨by have := h.2; omega, h.1⟩
@@ -200,7 +201,7 @@ theorem sendInLoop_sched_aux (c : Conn) (data : Bytes) (q : Bool) :
         obtain ⟨a1, a2⟩ := queueRemainder_aux c0 data 0 (decide (writeErrLogged e) && decide (writeErrFatal e))
         refine ⟨remOf data 0 (decide (writeErrLogged e) && decide (writeErrFatal e)), ?_, ?_⟩
         · rw [a1, f1]
-        · rw [a2, f1, f2, f4, f5]; simp [tookWhole]
+        · rw [a2, f1, f2, f4, f5, f7]; simp [tookWhole]
     · rw [if_neg hd]
       have hd' : ¬ (c.ch.evWrite = false ∧ c.outBuf = []) := by
         intro h; exact hd ((directWrite_iff _ _).mpr ⟨h.1, by simp [h.2]⟩)
@@ -217,16 +218,16 @@ theorem sendInLoop_sched (c : Conn) (data : Bytes) (q : Bool) :
     let c' := sendInLoop c data q
     c'.pending = c.pending
       ++ (if c.hasWC = true ∧ c.st ≠ .kDisconnected ∧ c.ch.evWrite = false ∧ c.outBuf = []
-            ∧ tookWhole (peekWrite c) data.length = true then [Task.writeComplete] else [])
+            ∧ tookWhole (peekWrite c) data.length = true then [Task.writeComplete (bindCb wcBindSend c.wcId)] else [])
       ++ (if c.hasHWM = true ∧ c.outBuf.length < c.mark ∧ c.mark ≤ c'.outBuf.length
-            ∧ c.outBuf.length < c'.outBuf.length then [Task.highWater c'.outBuf.length] else []) := by
+            ∧ c.outBuf.length < c'.outBuf.length then [Task.highWater (bindCb hwmBind c.hwmId) c'.outBuf.length] else []) := by
   intro c'
   obtain ⟨rem, h1, h2⟩ := sendInLoop_sched_aux c data q
   show (sendInLoop c data q).pending = _
   rw [h2]
   congr 1
   show _ = (if c.hasHWM = true ∧ c.outBuf.length < c.mark ∧ c.mark ≤ (sendInLoop c data q).outBuf.length
-            ∧ c.outBuf.length < (sendInLoop c data q).outBuf.length then [Task.highWater (sendInLoop c data q).outBuf.length] else [])
+            ∧ c.outBuf.length < (sendInLoop c data q).outBuf.length then [Task.highWater (bindCb hwmBind c.hwmId) (sendInLoop c data q).outBuf.length] else [])
   rw [h1]; unfold hwmSched
   by_cases hc : 0 < rem ∧ c.hasHWM = true ∧ c.outBuf.length < c.mark ∧ c.mark ≤ c.outBuf.length + rem
   · rw [if_pos hc, if_pos ⟨hc.2.1, hc.2.2.1, hc.2.2.2, by omega⟩]
@@ -263,7 +264,7 @@ theorem sendInLoop_backlog (c : Conn) (data : Bytes) (q : Bool) :
     · obtain ⟨hw, hl⟩ := (directWrite_iff _ _).mp hd
       have ho : c.outBuf = [] := List.eq_nil_of_length_eq_zero hl
       rw [if_pos hd, if_pos ⟨hw, ho⟩]
-      obtain ⟨f1, -, -, -, -⟩ := accept_popWrite_fields c data q (.sysWrite data.length (peekWrite c))
+      obtain ⟨f1, -, -, -, -, -, -⟩ := accept_popWrite_fields c data q (.sysWrite data.length (peekWrite c))
       generalize emit (popWrite (accept c data q)) (.sysWrite data.length (peekWrite c)) = c0 at f1 ⊢
       cases peekWrite c with
       | took n =>
@@ -298,14 +299,14 @@ theorem drainsNow_iff (c : Conn) :
 
 theorem afterDrain_sched (c : Conn) :
     (afterDrain c).pending = c.pending
-      ++ (if c.hasWC = true then [Task.writeComplete] else [])
+      ++ (if c.hasWC = true then [Task.writeComplete (bindCb wcBindDrain c.wcId)] else [])
       ++ (if c.st = .kDisconnecting then [Task.drainShutdownInLoop] else []) := by
   unfold afterDrain
   simp only []
   by_cases h1 : drainWC (disableWriting c).hasWC
   · have h1' : c.hasWC = true := h1
     rw [if_pos h1, if_pos h1']
-    by_cases h2 : drainShutdown (enqueue (disableWriting c) .writeComplete).st
+    by_cases h2 : drainShutdown (enqueue (disableWriting c) (.writeComplete (bindCb wcBindDrain c.wcId))).st
     · have h2' : c.st = .kDisconnecting := h2
       rw [if_pos h2, if_pos h2']; simp [handOff, drainShutdownDispatch, enqueue, disableWriting, setEvents]
     · have h2' : ¬ c.st = .kDisconnecting := h2
@@ -323,8 +324,8 @@ theorem afterDrain_outBuf (c : Conn) : (afterDrain c).outBuf = c.outBuf := by
 
 theorem popWrite_emit_fields (c : Conn) (e : Ev) :
     let c0 := emit (popWrite c) e
-    c0.outBuf = c.outBuf ∧ c0.pending = c.pending ∧ c0.hasWC = c.hasWC ∧ c0.st = c.st := by
-  simp only [emit]; unfold popWrite; split <;> exact ⟨rfl, rfl, rfl, rfl⟩
+    c0.outBuf = c.outBuf ∧ c0.pending = c.pending ∧ c0.hasWC = c.hasWC ∧ c0.st = c.st ∧ c0.wcId = c.wcId := by
+  simp only [emit]; unfold popWrite; split <;> exact ⟨rfl, rfl, rfl, rfl, rfl⟩
 
 /-- the backlog after `handleWrite` -/
 theorem handleWrite_outBuf (c : Conn) :
@@ -338,7 +339,7 @@ theorem handleWrite_outBuf (c : Conn) :
   by_cases hw : handleWriteActs c.ch.evWrite
   · have hw' : c.ch.evWrite = true := hw
     rw [if_pos hw, if_pos hw']
-    obtain ⟨f1, -, -, -⟩ := popWrite_emit_fields c (.sysWrite c.outBuf.length (peekWrite c))
+    obtain ⟨f1, -, -, -, -⟩ := popWrite_emit_fields c (.sysWrite c.outBuf.length (peekWrite c))
     generalize emit (popWrite c) (.sysWrite c.outBuf.length (peekWrite c)) = c0 at f1 ⊢
     cases peekWrite c with
     | took n =>
@@ -357,14 +358,14 @@ theorem handleWrite_outBuf (c : Conn) :
 drained the backlog; the deferred half-close iff it drained and `shutdown()` was called before -/
 theorem handleWrite_sched (c : Conn) :
     (handleWrite c).pending = c.pending
-      ++ (if c.hasWC = true ∧ drainsNow c = true then [Task.writeComplete] else [])
+      ++ (if c.hasWC = true ∧ drainsNow c = true then [Task.writeComplete (bindCb wcBindDrain c.wcId)] else [])
       ++ (if drainsNow c = true ∧ c.st = .kDisconnecting then [Task.drainShutdownInLoop] else []) := by
   unfold handleWrite
   by_cases hw : handleWriteActs c.ch.evWrite
   · have hw' : c.ch.evWrite = true := hw
     rw [if_pos hw]
-    obtain ⟨f1, f2, f3, f4⟩ := popWrite_emit_fields c (.sysWrite c.outBuf.length (peekWrite c))
-    generalize emit (popWrite c) (.sysWrite c.outBuf.length (peekWrite c)) = c0 at f1 f2 f3 f4 ⊢
+    obtain ⟨f1, f2, f3, f4, f5⟩ := popWrite_emit_fields c (.sysWrite c.outBuf.length (peekWrite c))
+    generalize emit (popWrite c) (.sysWrite c.outBuf.length (peekWrite c)) = c0 at f1 f2 f3 f4 f5 ⊢
     cases hr : peekWrite c with
     | took n =>
       cases n with
@@ -377,7 +378,7 @@ theorem handleWrite_sched (c : Conn) :
             have : (c0.outBuf.drop (n+1)).length = 0 := hdr
             rw [f1, List.length_drop] at this; omega
           have hd : drainsNow c = true := (drainsNow_iff c).mpr ⟨hw', n, hr, hdr'⟩
-          simp only []; rw [f2, f3, f4]; simp [hd]
+          simp only []; rw [f2, f3, f4, f5]; simp [hd]
         · rw [if_neg hdr]
           have hd : drainsNow c = false := by
             cases h : drainsNow c with
@@ -418,7 +419,7 @@ theorem drainsNow_iff_emptied (c : Conn) (hne : c.outBuf ≠ []) :
 theorem handleWrite_sched' (c : Conn) (hne : c.outBuf ≠ []) :
     let c' := handleWrite c
     c'.pending = c.pending
-      ++ (if c.hasWC = true ∧ c.ch.evWrite = true ∧ c'.outBuf = [] then [Task.writeComplete] else [])
+      ++ (if c.hasWC = true ∧ c.ch.evWrite = true ∧ c'.outBuf = [] then [Task.writeComplete (bindCb wcBindDrain c.wcId)] else [])
       ++ (if (c.ch.evWrite = true ∧ c'.outBuf = []) ∧ c.st = .kDisconnecting then [Task.drainShutdownInLoop] else []) := by
   intro c'
   show (handleWrite c).pending = _
@@ -429,7 +430,7 @@ theorem handleWrite_sched' (c : Conn) (hne : c.outBuf ≠ []) :
 /-! ### (d) nothing else schedules them; they run only out of the functor queue -/
 
 def Ev.isQueuedCb : Ev → Bool
-  | .wc | .hwm _ => true
+  | .wc _ | .hwm _ _ => true
   | _ => false
 
 /-- `c'`'s trace is `c`'s, extended by events none of which is a write-complete or high-water callback -/
@@ -504,12 +505,14 @@ theorem act_tx (c : Conn) (f : Bool) (a : Act) : TraceExt c (act c f a) := by
     · exact TraceExt.rfl' c
   | stopRead => simp only [act]; exact handOff_tx _ _ _ _ _ (TraceExt.same (stopReadInLoop_trace c))
   | startRead => simp only [act]; exact handOff_tx _ _ _ _ _ (TraceExt.same (startReadInLoop_trace c))
+  | setWc k => exact TraceExt.same rfl
+  | setHwm k m => exact TraceExt.same rfl
 
 /-- user operations (from any thread, inside or outside callbacks) never run the write-complete
 or the high-water callback synchronously: what they add to the trace contains neither -/
 theorem wc_hwm_only_via_queue (c : Conn) (f : Bool) (a : Act) :
     (act c f a).trace.take c.trace.length = c.trace ∧
-    ∀ e ∈ (act c f a).trace.drop c.trace.length, e ≠ .wc ∧ ∀ n, e ≠ .hwm n := by
+    ∀ e ∈ (act c f a).trace.drop c.trace.length, (∀ k, e ≠ .wc k) ∧ ∀ k n, e ≠ .hwm k n := by
   obtain ⟨s, hs, hq⟩ := act_tx c f a
   rw [hs]
   refine ⟨by simp, ?_⟩
@@ -517,8 +520,8 @@ theorem wc_hwm_only_via_queue (c : Conn) (f : Bool) (a : Act) :
   rw [List.drop_left'] at he
   · have := hq e he
     constructor
-    · intro h; rw [h] at this; cases this
-    · intro n h; rw [h] at this; cases this
+    · intro k h; rw [h] at this; cases this
+    · intro k n h; rw [h] at this; cases this
   · rfl
 
 /-- a callback: its event, then whatever the user's code does — which is never one of the two -/
@@ -537,14 +540,14 @@ theorem callback_tx (c : Conn) (k : Cb) (e : Ev) (h : e.isQueuedCb = false) : Tr
   · exact hq x h'
 
 /-- the functor `writeComplete` invokes the callback, first thing -/
-theorem runTask_wc (c : Conn) (ha : c.alive = true) :
-    ∃ s, (runTask c .writeComplete).trace = c.trace ++ Ev.wc :: s ∧ ∀ x ∈ s, x.isQueuedCb = false := by
-  have : runTask c .writeComplete = callback c .wc .wc := by simp [runTask, ha]
+theorem runTask_wc (c : Conn) (b : Bound) (ha : c.alive = true) :
+    ∃ s, (runTask c (.writeComplete b)).trace = c.trace ++ Ev.wc (b.resolve c.wcId) :: s ∧ ∀ x ∈ s, x.isQueuedCb = false := by
+  have : runTask c (.writeComplete b) = callback c .wc (.wc (b.resolve c.wcId)) := by simp [runTask, ha]
   rw [this]; exact callback_trace _ _ _
 
-theorem runTask_hwm (c : Conn) (n : Nat) (ha : c.alive = true) :
-    ∃ s, (runTask c (.highWater n)).trace = c.trace ++ Ev.hwm n :: s ∧ ∀ x ∈ s, x.isQueuedCb = false := by
-  have : runTask c (.highWater n) = callback c .hwm (.hwm n) := by simp [runTask, ha]
+theorem runTask_hwm (c : Conn) (b : Bound) (n : Nat) (ha : c.alive = true) :
+    ∃ s, (runTask c (.highWater b n)).trace = c.trace ++ Ev.hwm (b.resolve c.hwmId) n :: s ∧ ∀ x ∈ s, x.isQueuedCb = false := by
+  have : runTask c (.highWater b n) = callback c .hwm (.hwm (b.resolve c.hwmId) n) := by simp [runTask, ha]
   rw [this]; exact callback_trace _ _ _
 
 /-! everything else the loop does for the connection adds neither event -/
@@ -573,7 +576,7 @@ theorem afterDrain_tx (c : Conn) : TraceExt c (afterDrain c) := by
   unfold afterDrain; simp only []
   split
   · split
-    · exact TraceExt.trans (b := enqueue (disableWriting c) .writeComplete) (TraceExt.same rfl) (handOff_tx _ _ _ _ _ (shutdownInLoop_tx _))
+    · exact TraceExt.trans (b := enqueue (disableWriting c) (.writeComplete (bindCb wcBindDrain c.wcId))) (TraceExt.same rfl) (handOff_tx _ _ _ _ _ (shutdownInLoop_tx _))
     · exact TraceExt.same rfl
   · split
     · exact TraceExt.trans (b := disableWriting c) (TraceExt.same rfl) (handOff_tx _ _ _ _ _ (shutdownInLoop_tx _))
@@ -641,7 +644,7 @@ theorem maybeDestroy_tx (c : Conn) : TraceExt c (maybeDestroy c) := by
   · exact TraceExt.rfl' c
 
 /-- no functor other than `writeComplete` / `highWater` invokes one of the two callbacks -/
-theorem runTask_other_tx (c : Conn) (t : Task) (h1 : t ≠ .writeComplete) (h2 : ∀ n, t ≠ .highWater n) :
+theorem runTask_other_tx (c : Conn) (t : Task) (h1 : ∀ b, t ≠ .writeComplete b) (h2 : ∀ b n, t ≠ .highWater b n) :
     TraceExt c (runTask c t) := by
   unfold runTask; split
   · split
@@ -655,8 +658,8 @@ theorem runTask_other_tx (c : Conn) (t : Task) (h1 : t ≠ .writeComplete) (h2 :
     | drainShutdownInLoop => exact shutdownInLoop_tx _
     | forceCloseInLoop => simp only []; split; exact handleClose_tx _; exact TraceExt.rfl' c
     | connectDestroyed => exact connectDestroyed_tx _
-    | writeComplete => exact absurd rfl h1
-    | highWater n => exact absurd rfl (h2 n)
+    | writeComplete b => exact absurd rfl (h1 b)
+    | highWater b n => exact absurd rfl (h2 b n)
     | startReadInLoop => exact TraceExt.same (startReadInLoop_trace c)
     | stopReadInLoop => exact TraceExt.same (stopReadInLoop_trace c)
     | addDelayTimer d => exact TraceExt.same rfl
@@ -676,7 +679,7 @@ def sample (mark : Nat) (backlog : Nat) (writes : List WriteRes) : Conn :=
 def eight : Bytes := [1, 2, 3, 4, 5, 6, 7, 8]
 
 /-- mark 10, backlog 4, 8 more bytes: crossing, reported with the new backlog 12 -/
-example : (sendInLoop (sample 10 4 []) eight false).pending = [Task.highWater 12] := by decide
+example : (sendInLoop (sample 10 4 []) eight false).pending = [Task.highWater (bindCb hwmBind 1) 12] := by decide
 /-- backlog already at the mark: no second report -/
 example : (sendInLoop (sample 10 10 []) eight false).pending = [] := by decide
 /-- backlog stays below the mark: no report -/
@@ -685,16 +688,16 @@ example : (sendInLoop (sample 13 4 []) eight false).pending = [] := by decide
 example : (sendInLoop (sample 0 0 [.took 3]) eight false).pending = [] := by decide
 example : (sendInLoop (sample 0 4 []) eight false).pending = [] := by decide
 /-- the direct write takes everything: write-complete scheduled, nothing queued -/
-example : (sendInLoop (sample 10 0 [.took 8]) eight false).pending = [Task.writeComplete]
+example : (sendInLoop (sample 10 0 [.took 8]) eight false).pending = [Task.writeComplete (bindCb wcBindSend 1)]
     ∧ (sendInLoop (sample 10 0 [.took 8]) eight false).outBuf = [] := by decide
 /-- the direct write takes 3 of 8 with mark 5: the remaining 5 cross the mark, no write-complete -/
-example : (sendInLoop (sample 5 0 [.took 3]) eight false).pending = [Task.highWater 5]
+example : (sendInLoop (sample 5 0 [.took 3]) eight false).pending = [Task.highWater (bindCb hwmBind 1) 5]
     ∧ (sendInLoop (sample 5 0 [.took 3]) eight false).outBuf = [4, 5, 6, 7, 8] := by decide
 /-- `handleWrite` drains a backlog of 4: write-complete scheduled; a partial write schedules nothing -/
-example : (handleWrite (sample 10 4 [.took 4])).pending = [Task.writeComplete] := by decide
+example : (handleWrite (sample 10 4 [.took 4])).pending = [Task.writeComplete (bindCb wcBindDrain 1)] := by decide
 example : (handleWrite (sample 10 4 [.took 3])).pending = [] := by decide
 /-- draining after `shutdown()`: write-complete, then the deferred half-close -/
 example : (handleWrite { sample 10 4 [.took 4] with st := .kDisconnecting }).pending
-    = [Task.writeComplete, Task.drainShutdownInLoop] := by decide
+    = [Task.writeComplete (bindCb wcBindDrain 1), Task.drainShutdownInLoop] := by decide
 
 end MuduoVerif.Conn
